@@ -14,7 +14,7 @@ def entryNames (hasEnd hasGecko hasFrames : Bool) : List Bytes :=
 
 /-- **C18, entry order**: `peppi.json` first, then `metadata.json`, `start.json`, `start.raw`, the end pair when the game has
     an end, the Gecko blob when present, `frames.arrow` last when the game has frames -/
-theorem slppEntries_names_order {χ : Type} (C : Codec χ) (g : PGame χ) (sb : Bytes) (eb : Option Bytes)
+theorem slppEntries_names_order {μ φ : Type} (C : Codec μ φ) (g : PGame μ φ) (sb : Bytes) (eb : Option Bytes)
     (hend : eb.isSome = g.fend.isSome) :
     (slppEntries C g sb eb).map (·.1) = entryNames g.fend.isSome g.gecko.isSome g.frames.isSome := by
   cases hf : g.fend <;> cases he : eb <;> simp [hf, he] at hend <;>
@@ -23,7 +23,7 @@ theorem slppEntries_names_order {χ : Type} (C : Codec χ) (g : PGame χ) (sb : 
 /-- **C18, the JSON entries agree with the raw entries**: what the archive holds under `start.json` is the rendering of the
     start the reader parses from the archive's `start.raw`; likewise for the end pair; and `peppi.json` decodes to the hash and
     quirks of the game that is read back -/
-theorem slppEntries_consistent {χ : Type} (C : Codec χ) (T : TextOracle) (g : PGame χ) (sb : Bytes) (eb : Option Bytes)
+theorem slppEntries_consistent {μ φ : Type} (C : Codec μ φ) (T : TextOracle) (g : PGame μ φ) (sb : Bytes) (eb : Option Bytes)
     (hstart : gameStart T sb = .ok g.start) (hend : eb.map gameEnd = g.fend.map Res.ok) :
     let es := slppEntries C g sb eb
     (∃ raw s, lookupEntry N_STARTR es = some raw ∧ gameStart T raw = .ok s ∧ lookupEntry N_STARTJ es = some (C.startJson s)) ∧
@@ -66,7 +66,7 @@ theorem slppEntries_consistent {χ : Type} (C : Codec χ) (T : TextOracle) (g : 
   · simp [lookupEntry, slppEntries, List.find?]
 
 /-- **C18, determinism**: the archive is a function of the game and its raw blocks -/
-theorem slppWrite_deterministic {χ : Type} (C : Codec χ) (g g' : PGame χ) (sb sb' : Bytes) (eb eb' : Option Bytes)
+theorem slppWrite_deterministic {μ φ : Type} (C : Codec μ φ) (g g' : PGame μ φ) (sb sb' : Bytes) (eb eb' : Option Bytes)
     (h : g = g') (hs : sb = sb') (he : eb = eb') : slppWrite C g sb eb = slppWrite C g' sb' eb' := by
   subst h hs he; rfl
 
